@@ -21,7 +21,7 @@ VARIABLES l, scen,
           st,       \* the Lifecycle state
           chOf,     \* trace channel id -> call id that created it
           fnOf,     \* call id -> lower-cased full name of the service it registered
-          ann,      \* full names seen announced
+          ann,      \* <<full name, interface, v4>> seen announced
           got,      \* call id -> what its reply channel yielded ("Running", "Shutdown", "value", "closed")
           viol, hits
 vars == <<l, scen, st, chOf, fnOf, ann, got, viol, hits>>
@@ -91,10 +91,11 @@ Iter ==
          closedWant == {c \in chans : s2.sub[chOf[c]].closed}
          cleanup == st.cleanups = 0 /\ s2.cleanups = 1
          \* goodbyes: the clean-up withdraws every registered service that was announced
-         srvBye == UNION {{r.n.k : r \in {x \in Range(Ev.sent[i].m.an) : x.ty = "SRV" /\ x.ttl = 0}}
+         \* ... on every interface and over every IP version it was announced on: <<full name, interface, v4>>
+         srvBye == UNION {{<<r.n.k, Ev.sent[i]["if"], Ev.sent[i].v4>> : r \in {x \in Range(Ev.sent[i].m.an) : x.ty = "SRV" /\ x.ttl = 0}}
                           : i \in {x \in 1..Len(Ev.sent) : Ev.sent[x].ok /\ Ev.sent[x].m.qr}}
-         owedBye == {fnOf[id] : id \in {x \in st.svcs : x \in Dom(fnOf)}} \cap ann
-         annNow == UNION {{r.n.k : r \in {x \in Range(Ev.sent[i].m.an) : x.ty = "SRV" /\ x.ttl > 0}}
+         owedBye == {a \in ann : a[1] \in {fnOf[id] : id \in {x \in st.svcs : x \in Dom(fnOf)}}}
+         annNow == UNION {{<<r.n.k, Ev.sent[i]["if"], Ev.sent[i].v4>> : r \in {x \in Range(Ev.sent[i].m.an) : x.ty = "SRV" /\ x.ttl > 0}}
                           : i \in {x \in 1..Len(Ev.sent) : Ev.sent[x].ok /\ Ev.sent[x].m.qr /\ Ev.sent[x].mc}}
      IN /\ viol' = viol
               \cup V("C14.panic", ~Ev.panicked, <<"the daemon thread panicked">>)
@@ -111,6 +112,7 @@ Iter ==
         /\ got' = [id \in Dom(got) \cup {o.id : o \in obs} |-> IF \E o \in obs : o.id = id THEN (CHOOSE o \in obs : o.id = id).y ELSE got[id]]
         /\ hits' = hits \cup (IF cleanup THEN {"C14.cleanup"} ELSE {})
                         \cup (IF cleanup /\ owedBye # {} THEN {"C14.goodbye"} ELSE {})
+                        \cup (IF cleanup /\ (\E a \in owedBye : ~a[3]) THEN {"C14.goodbye-v6"} ELSE {})
                         \cup (IF cleanup /\ \E x \in Dom(st.sub) : st.sub[x].where = "daemon" /\ ~st.sub[x].mon THEN {"C14.stopped"} ELSE {})
                         \cup (IF \E w \in want : w.y = "closed" THEN {"C14.behind-exit"} ELSE {})
                         \cup (IF Ev.win THEN {"C14.window"} ELSE {})
